@@ -735,6 +735,17 @@ def s5_compare(case):
             if f['id'] in wantu and (f['uses'], f['usedby']) != wantu[f['id']]:
                 return 'diff', 'dependency lists of %s: impl uses=%s usedby=%s model uses=%s usedby=%s' % (
                     (f['id'], f['uses'], f['usedby']) + wantu[f['id']])
+    # ... and the same relation per flow and per requested type (usesDetail / usedByDetail)
+    m5d = next((l for l in case.mlines if l.startswith('m5d ')), None)
+    if m5d is not None and fs and 'ud' in fs[0]:
+        wantd = {}
+        for tok in m5d.split()[1:]:
+            i, ud, ubd = tok.split(':')
+            wantd[i] = (ud, ubd)
+        for f in fs:
+            if f['id'] in wantd and (f['ud'], f['ubd']) != wantd[f['id']]:
+                return 'diff', 'dependency detail of %s: impl uses=%s usedby=%s model uses=%s usedby=%s' % (
+                    (f['id'], f['ud'], f['ubd']) + wantd[f['id']])
     return 'same', ''
 
 
